@@ -1,6 +1,6 @@
 /-
   C10 model driver.  ops (see harness/c10):
-    new <mtu> <frag> <reasm> <ifi> <cm> <thr> <seq> <nthreads>
+    new <mtu> <frag> <reasm> <ifi> <cm> <thr> <seq> <nthreads> <sscope l|n> <rscope l|n>
     mtu <n> | opt <frag> <ifi>      reconfiguration of the LIVE sending face between sends      => ok
     tx <id> <pkthex> <tokhex|-> <itok> <mark|-> <inface|-> <cong> <hn> <hp>  => n=<k> <framehex>*
        (hn, hp: hash facts of the dispatch rule — thread of the name, ascending threads of all prefixes)
@@ -86,7 +86,7 @@ def bool01 (s : String) : Bool := s == "1"
 def stepC10 (d : DSt) (op : String) (got : String) : StepResult DSt :=
   let crash : List SpecFail := if isCrash got then [⟨"no-crash", "crash", s!"{op.take 60}: {got}"⟩] else []
   match op.splitOn " " with
-  | ["new", mtu, frag, reasm, ifi, cm, thr, seq, nth] =>
+  | ["new", mtu, frag, reasm, ifi, cm, thr, seq, nth, sscope, rscope] =>
     match mtu.toNat?, thr.toNat?, seq.toNat?.bind (fun s => nth.toNat?.map (fun n => (s, n))) with
     | some mtu, some thr, some (seq, nth) =>
       let cfg : TxCfg := { mtu := mtu, fragEnabled := bool01 frag, ifiEnabled := bool01 ifi,
@@ -94,7 +94,7 @@ def stepC10 (d : DSt) (op : String) (got : String) : StepResult DSt :=
       { st := { active := true, cfg := cfg, reasm := bool01 reasm, tx := { nextSeq := seq },
                 nThreads := max 1 (min nth 8) },
         expected := some "ok",
-        cov := [s!"threads-{max 1 (min nth 8)}"] ++ [if bool01 frag then "cfg-frag" else "cfg-nofrag"] ++ (if bool01 ifi then ["cfg-ifi"] else []) ++
+        cov := [s!"threads-{max 1 (min nth 8)}", s!"scope-send-{sscope}", s!"scope-recv-{rscope}"] ++ [if bool01 frag then "cfg-frag" else "cfg-nofrag"] ++ (if bool01 ifi then ["cfg-ifi"] else []) ++
                (if bool01 cm then ["cfg-congestion-marking"] else []) ++
                (if seq + 300 ≥ two64 then ["seq-near-2^64"] else if seq + 300 ≥ 4294967296 ∧ seq < 4294967296 then ["seq-near-2^32"] else []) }
     | _, _, _ => { st := {}, expected := some "bad-op" }
